@@ -1,6 +1,8 @@
 # /verif build: Coq model + proofs (full .vo), extraction, OCaml driver.
 SHELL := /bin/bash
-PY := PYTHONPATH=/repo PYTHONHASHSEED=0 /venv/bin/python
+FICKLING_REPO ?= /repo
+export FICKLING_REPO
+PY := PYTHONPATH=$(FICKLING_REPO) PYTHONHASHSEED=0 /venv/bin/python
 COQ_TIMEOUT ?= 1800
 MODEL_V := $(wildcard coq/model/*.v)
 DRIVER := _build/driver/driver
